@@ -141,3 +141,22 @@ func init() {
 		return a0 <= bN && b0 <= aN
 	}
 }
+
+func init() {
+	// randomness is not observed by any checked property: a random source always yields zero
+	for _, m := range []string{"Int63", "Int31", "Int", "Uint32", "Uint64", "Int63n", "Int31n", "Intn"} {
+		externals["(*math/rand.Rand)."+m] = func(fr *frame, args []value) value {
+			switch m {
+			case "Int63", "Int63n":
+				return int64(0)
+			case "Int31", "Int31n":
+				return int32(0)
+			case "Uint32":
+				return uint32(0)
+			case "Uint64":
+				return uint64(0)
+			}
+			return int(0)
+		}
+	}
+}
